@@ -8,3 +8,16 @@ package stubs
 
 // Logging has no effect on the state any contract talks about and does not panic.
 //@ noeffect logging.Logger
+
+// Regular expressions: matching is a pure function of the compiled expression
+// and the subject; the module's three package-level expressions get their
+// meaning from axioms next to their declaration (vm/contracts_verif.go).
+//@ ufun reMatch(re int, s string) bool
+//@ extern (*regexp.Regexp).Match
+//@   ensures result == reMatch(re, str(b))
+
+//@ extern bytes.Equal
+//@   ensures result == (str(a) == str(b))
+
+// The engine only accepts *cache.Cache ("memory MUST be *cache.Cache for now").
+//@ devirt cache.Memory *cache.Cache
